@@ -236,7 +236,8 @@ def genexp(eng, node, st, fid):
         try:
             i, cond, vals, extra = _element(eng, [node.elt], gen, s, fid, seq)
         except Unsupported:
-            if seq.known_len is not None and seq.known_len <= 6 and seq.tag == "tuple":
+            if seq.known_len is not None and seq.known_len <= 8 and seq.tag == "tuple":
+                # (up to 8 elements: the constant tables of cobra.medium.annotations)
                 # (f(b) for b in <tuple of fixed arity>), e.g. max(abs(b) for b in r.bounds): a tuple cannot be indexed
                 # symbolically; the elements are evaluated one by one, in order, and handed on as a tuple (the consumers
                 # min / max / sum / tuple() / a for loop read all of them at once anyway)
